@@ -17,6 +17,7 @@
 -/
 import ASV.Props.C13
 import ASV.Proofs.DeterminismStages
+import ASV.Proofs.DeterminismAreas
 namespace ASV.C17
 open ASV ASV.Refine ASV.HitFilter ASV.Determinism
 
@@ -232,5 +233,134 @@ example : Enumerates List.reverse := fun g => List.reverse_perm g
 /-- a source feature and a gene on the same coordinates, qualifiers filled in different orders -/
 example : writeRecord [[⟨0, 9, true, [(3, [1]), (2, [7])], []⟩], [⟨0, 9, false, [(5, [1]), (1, [2])], [4, 3]⟩]] =
     [((0, 9, true), [(2, [7]), (3, [1])]), ((0, 9, false), [(0, [3, 4]), (1, [2]), (5, [1])])] := by decide
+
+/-! ## area formation: `create_candidates_from_protoclusters` (C05's model `ASV.CC`) -/
+section areas
+open ASV.CC
+
+/-- `_sorted_protoclusters` — the function every set of protoclusters in formation.py goes through
+    before it is iterated — gives one list for all enumerations of the set.
+    H (`TieInj`): no two different members agree on `(product, core start, core end)`. -/
+theorem sortedProtoclusters_invariant_partial : EnumerationInvariantOn TieInj sortProtos :=
+  fun _ _ inj h => sortProtos_eq_of_perm inj h
+
+/-- the ORDERED result of candidate formation (kinds, members in constructor order, locations, the
+    errors too) is a function of the multiset of protoclusters supplied: any permutation of the
+    input list gives the identical output list.  H as above. -/
+theorem formation_order_is_function_of_multiset_partial (ps qs : List CC.Proto) (wrap : Option Int)
+    (inj : TieInj ps) (h : ps.Perm qs) : formation ps wrap = formation qs wrap :=
+  formation_eq_of_perm wrap inj h
+
+/-- without H it is false: two protoclusters equal in coordinates, core and product keep the
+    order in which they were supplied -/
+theorem formation_tie_key_witness :
+    ∃ ps qs : List CC.Proto, ps.Perm qs ∧ ps.Nodup ∧
+      candSummary (formation ps none) ≠ candSummary (formation qs none) :=
+  ⟨[⟨0, .simple ⟨80, 130, .fwd⟩, .simple ⟨90, 120, .fwd⟩, [], "a"⟩, ⟨1, .simple ⟨80, 130, .fwd⟩, .simple ⟨90, 120, .fwd⟩, [], "a"⟩],
+   [⟨1, .simple ⟨80, 130, .fwd⟩, .simple ⟨90, 120, .fwd⟩, [], "a"⟩, ⟨0, .simple ⟨80, 130, .fwd⟩, .simple ⟨90, 120, .fwd⟩, [], "a"⟩],
+   List.Perm.swap _ _ _, by decide, by decide +kernel⟩
+
+/-- the final loop of the code is the sorted one: C05's `formation` is `formationE` with the
+    `singles` set iterated in the model's own (insertion) order -/
+theorem formation_final_loop_is_sorted : formationE id = formation := formationE_id
+
+/-- … and however the `singles` set of promoted protoclusters is iterated (any enumerator of sets
+    of objects: any memory layout), the candidates, their order and their numbering are the same.
+    H: distinct protoclusters, `TieInj`. -/
+theorem formation_singles_enumeration_invariant_partial (e₁ e₂ : List CC.Proto → List CC.Proto)
+    (h₁ : EnumeratesProtos e₁) (h₂ : EnumeratesProtos e₂) (ps : List CC.Proto) (wrap : Option Int)
+    (hn : ps.Nodup) (inj : TieInj ps) : formationE e₁ ps wrap = formationE e₂ ps wrap :=
+  formationE_eq h₁ h₂ wrap hn inj
+
+/-- a chemical hybrid (T1PKS + NRPS sharing gene 1) and two protoclusters on identical coordinates
+    whose cores overlap the hybrid's core without lying inside it: both are promoted into the hybrid
+    and tracked in the `singles` set only -/
+def promotedPair : List CC.Proto :=
+  [⟨0, .simple ⟨100, 700, .fwd⟩, .simple ⟨300, 500, .fwd⟩, [0, 1], "T1PKS"⟩,
+   ⟨1, .simple ⟨200, 1000, .fwd⟩, .simple ⟨400, 800, .fwd⟩, [1, 2], "NRPS"⟩,
+   ⟨2, .simple ⟨600, 940, .fwd⟩, .simple ⟨700, 840, .fwd⟩, [], "terpene"⟩,
+   ⟨3, .simple ⟨600, 940, .fwd⟩, .simple ⟨720, 820, .fwd⟩, [], "RiPP-like"⟩]
+
+/-- the shape the property forbids (the loop without the re-sort): the order of the SINGLE
+    candidates — which becomes candidate 2 and which 3 — follows the iteration order of the set;
+    the code's loop gives one answer on the same input -/
+theorem formation_unsorted_singles_witness :
+    candSummary (formationUnsortedE id promotedPair none) ≠ candSummary (formationUnsortedE List.reverse promotedPair none) ∧
+    candSummary (formationE id promotedPair none) = candSummary (formationE List.reverse promotedPair none) ∧
+    candSummary (formationE id promotedPair none) =
+      some [(.hybrid, [0, 1, 3, 2]), (.single, [3]), (.single, [2])] := by decide +kernel
+
+/-! ## area formation: `Record.create_regions` (C06's model `ASV.Regions`) -/
+open ASV.Regions
+
+/-- the merge of the last section into the first over the origin takes the areas in LIST order:
+    C06's `sectionsOf` is `sectionsOfE` with the identity enumerator (no set is involved) -/
+theorem create_regions_merge_is_list_order (wrap : Option Int) (cands subs : List Regions.Feat) :
+    sectionsOfE id wrap cands subs = sectionsOf wrap cands subs :=
+  sectionsOf_is_list_order wrap cands subs
+
+/-- the ORDERED sections (= regions, each with its areas in order) are a function of the multiset
+    of candidate clusters and subregions.  H (`SeparatingKey`): on these areas `CDSCollection.__lt__`
+    is the strict order of a key that separates them. -/
+theorem create_regions_order_is_function_of_multiset_partial (wrap : Option Int) (key : Regions.Feat → Int × Int)
+    (c₁ s₁ c₂ s₂ : List Regions.Feat) (h : SeparatingKey key (c₁ ++ s₁)) (hp : (c₁ ++ s₁).Perm (c₂ ++ s₂)) :
+    sectionsOf wrap c₁ s₁ = sectionsOf wrap c₂ s₂ := by
+  rw [← sectionsOf_is_list_order, ← sectionsOf_is_list_order]
+  exact sectionsOfE_eq_of_perm id wrap h hp
+
+/-- on a linear record H is "no two areas have the same coordinates" -/
+theorem create_regions_order_on_line (len : Int) (c₁ s₁ c₂ s₂ : List Regions.Feat)
+    (hl : ∀ a ∈ c₁ ++ s₁, LineArea len a.loc)
+    (hd : ∀ a ∈ c₁ ++ s₁, ∀ b ∈ c₁ ++ s₁, lineKey a.loc = lineKey b.loc → a = b)
+    (hp : (c₁ ++ s₁).Perm (c₂ ++ s₂)) : sectionsOf none c₁ s₁ = sectionsOf none c₂ s₂ :=
+  create_regions_order_is_function_of_multiset_partial none _ c₁ s₁ c₂ s₂ (separatingKey_line hl hd) hp
+
+/-- … and so is the record after `create_regions(candidate_clusters, subregions)` -/
+theorem create_regions_state_is_function_of_multiset_partial (s : Regions.State) (key : Regions.Feat → Int × Int)
+    (c₁ s₁ c₂ s₂ : List Regions.Feat) (h : SeparatingKey key (c₁ ++ s₁)) (hc : c₁.Perm c₂) (hs : s₁.Perm s₂) :
+    createRegionsOf s c₁ s₁ = createRegionsOf s c₂ s₂ := by
+  have hp : (c₁ ++ s₁).Perm (c₂ ++ s₂) := hc.append hs
+  have e1 : c₁.isEmpty = c₂.isEmpty := by
+    cases c₁ with
+    | nil => rw [hc.symm.eq_nil]
+    | cons a t => cases c₂ with
+      | nil => exact absurd hc.eq_nil (by simp)
+      | cons b u => rfl
+  have e2 : s₁.isEmpty = s₂.isEmpty := by
+    cases s₁ with
+    | nil => rw [hs.symm.eq_nil]
+    | cons a t => cases s₂ with
+      | nil => exact absurd hs.eq_nil (by simp)
+      | cons b u => rfl
+  simp only [createRegionsOf, e1, e2,
+    create_regions_order_is_function_of_multiset_partial s.wrap key c₁ s₁ c₂ s₂ h hp]
+
+/-- a circular record of 1000 bases: candidate 0 spans the origin, 1 lies far away, 2–4 lie before
+    the origin and reach candidate 0 -/
+def originMerge : List Regions.Feat :=
+  [⟨0, .cand, .compound [⟨970, 1000, .fwd⟩, ⟨0, 30, .fwd⟩], [], [], []⟩,
+   ⟨1, .cand, .simple ⟨400, 450, .fwd⟩, [], [], []⟩,
+   ⟨2, .cand, .simple ⟨800, 980, .fwd⟩, [], [], []⟩,
+   ⟨3, .cand, .simple ⟨845, 985, .fwd⟩, [], [], []⟩,
+   ⟨4, .cand, .simple ⟨888, 982, .fwd⟩, [], [], []⟩]
+
+/-- the shape the property forbids (`first_areas.extend(set(last_areas).difference(first_areas))`):
+    the order of the candidates inside the merged region follows the set's iteration order; the
+    code's list loop gives `[0, 2, 3, 4]` -/
+theorem create_regions_set_merge_witness :
+    sectionIds (sectionsOfE id (some 1000) originMerge []) ≠ sectionIds (sectionsOfE List.reverse (some 1000) originMerge []) ∧
+    sectionIds (sectionsOf (some 1000) originMerge []) = some [[0, 2, 3, 4], [1]] := by decide +kernel
+
+/-- non-vacuity of the hypotheses: the promoted-pair layout has distinct tie keys, and permuting
+    it leaves the ordered result alone -/
+example : TieInj promotedPair := by
+  intro a ha b hb
+  simp only [promotedPair, List.mem_cons, List.mem_nil_iff, or_false] at ha hb
+  rcases ha with rfl | rfl | rfl | rfl <;> rcases hb with rfl | rfl | rfl | rfl <;> simp [tieKey]
+example : candSummary (formation promotedPair.reverse none) = candSummary (formation promotedPair none) := by
+  decide +kernel
+example : sectionIds (sectionsOf (some 1000) originMerge.reverse []) = some [[0, 2, 3, 4], [1]] := by decide +kernel
+
+end areas
 
 end ASV.C17
